@@ -676,3 +676,21 @@ package participle
 //@ func (*generatorContext).parseType
 //@   trusted
 //@   ensures returnedError == nil ==> result0 != nil && wfc(result0)
+
+// struct.go: the scanner's error callback of the tag lexer keeps every error except the one about
+// multi-character char literals (single-quoted strings are allowed in tags); in particular
+// "literal not terminated" is kept, which is what makes the slices in textScannerTransform safe.
+//@ func newTagLexer$1 [C19]
+//@   requires lexer != nil
+//@   modifies lexer.err
+//@   ensures uf("fn_strings.HasSuffix_r0", "Bool", msg, "char literal") || lexer.err != nil
+
+// textScannerTransform strips the quotes of string/char/raw-string tokens. Assumed about text/scanner: a
+// Char or RawString token whose scan reported no error is a complete literal (at least the two quotes).
+//@ func textScannerTransform [C19]
+//@   requires @assumed (token.Type == scanner.Char || token.Type == scanner.RawString) ==> len(token.Value) >= 2
+//@   ensures result1 != nil ==> implements(result1, Error)
+
+//@ func (*structLexer).GetField [C19]
+//@   requires len(s.indexes) > 0 && s.s != nil && field >= 0
+//@   pure
